@@ -176,3 +176,161 @@ Proof.
   - destruct (e_tau e <=? now + t); destruct S1 as [A1 B1]; destruct S2 as [A2 B2]; rewrite A1, A2, B1, B2; split; reflexivity.
   - destruct S1 as [A1 B1]; destruct S2 as [A2 B2]; rewrite A1, A2, B1, B2; split; reflexivity.
 Qed.
+
+(* ------------------------------------------------------------------------------------------------------------ *)
+(* retry_interval with NON-ZERO call costs.  With costs the outcome does depend on retry_interval inside the
+   window now+T < tau <= now+T+(total cost): every wake-up buys another attempt.  What holds for every retry
+   interval (W = time spent in select(), rr_dt = W + the costs of the callback invocations):
+     success  =>  max(0, tau-now) <= rr_dt   and   W <= max(0, tau-now)
+     timeout  =>  tau > now + T              and   W = T
+   hence tau <= now+T always succeeds, tau beyond now+T+cost total always times out, and the elapsed times of two
+   runs differ by at most the call costs of the longer one. *)
+Definition envc_spec (e : envc) (T : tmo) (now : Z) (r : rres Z unit) : Prop :=
+  match rr_out r with
+  | ROk _ _ => Z.max 0 (e_tau (ec_env e) - now) <= rr_dt r
+               /\ 0 <= sum_wait_el (rr_waits r) <= Z.max 0 (e_tau (ec_env e) - now)
+  | RTimeout => match T with
+                | Some t => now + t < e_tau (ec_env e) /\ sum_wait_el (rr_waits r) = t
+                | None => False
+                end
+  | _ => False
+  end.
+
+Lemma sel_envc_ready_now : forall e now wt,
+  e_tau (ec_env e) <= now -> sel_envc e now wt = ({| sa_ready := true; sa_el := 0 |}, now).
+Proof. intros e now wt H. unfold sel_envc. apply Z.leb_le in H. rewrite H. reflexivity. Qed.
+
+Lemma sel_envc_later : forall e now wt,
+  now < e_tau (ec_env e) -> sel_envc e now wt = sel_env (ec_env e) now wt.
+Proof. intros e now wt H. unfold sel_envc. apply Z.leb_gt in H. rewrite H. reflexivity. Qed.
+
+Lemma retry_w_envc_spec : forall e fuel ri T now,
+  0 <= ec_cost e -> ri_ok ri -> (match T with Some t => 0 <= t | None => True end) ->
+  rr_out (retry_w (cb_envc e) (sel_envc e) fuel ri T now) <> RFuel ->
+  envc_spec e T now (retry_w (cb_envc e) (sel_envc e) fuel ri T now).
+Proof.
+  intros e fuel. induction fuel as [|f IH]; intros ri T now Hc Hri HT; simpl; [intro H; contradiction H; reflexivity|].
+  unfold cb_envc at 1. simpl.
+  set (tau := e_tau (ec_env e)) in *. set (c := ec_cost e) in *.
+  destruct (tau <=? now) eqn:Etau; simpl.
+  - apply Z.leb_le in Etau. intros _. unfold envc_spec. simpl. fold tau. lia.
+  - apply Z.leb_gt in Etau.
+    (* one step: after the wait (elapsed el, 0 <= el, now2 = now + c + el <= max tau (now+c)) the rest of the run *)
+    assert (Hstep : forall (a : selans) (w2 : Z) (T1 : tmo) req,
+      0 <= sa_el a -> w2 = now + c + sa_el a ->
+      (tau <= now + c -> sa_el a = 0) -> (now + c < tau -> w2 <= tau) ->
+      (match T, T1 with
+       | Some t, Some t1 => t1 = t - sa_el a /\ 0 <= t1
+       | None, None => True
+       | _, _ => False
+       end) ->
+      rr_out (retry_w (cb_envc e) (sel_envc e) f ri T1 w2) <> RFuel ->
+      envc_spec e T now
+        (rr_add (c + sa_el a) [{| w_write := false; w_req := req; w_ready := sa_ready a; w_el := sa_el a |}]
+                (retry_w (cb_envc e) (sel_envc e) f ri T1 w2))).
+    { intros a w2 T1 req Hel Hw2 Hz Hle HTT Hfuel.
+      assert (HT1 : match T1 with Some t => 0 <= t | None => True end).
+      { destruct T as [t|], T1 as [t1|]; try contradiction; [lia|exact I]. }
+      specialize (IH ri T1 w2 Hc Hri HT1 Hfuel). unfold envc_spec in *. simpl. fold tau in IH |- *.
+      destruct (rr_out (retry_w (cb_envc e) (sel_envc e) f ri T1 w2)) as [v T'| |code|]; try contradiction.
+      - destruct IH as (A & B1 & B2). split; [lia|]. split; [lia|].
+        destruct (Z_le_gt_dec tau (now + c)) as [L|G]; [specialize (Hz L); lia | specialize (Hle ltac:(lia)); lia].
+      - destruct T as [t|], T1 as [t1|]; try contradiction.
+        destruct HTT as [E1 E2]. destruct IH as [A B]. split; lia. }
+    destruct T as [t|]; simpl.
+    + destruct (t <=? 0) eqn:Et; simpl.
+      { apply Z.leb_le in Et. intros _. unfold envc_spec. simpl. fold tau. split; lia. }
+      apply Z.leb_gt in Et.
+      assert (Hgen : forall wz (isri : bool), 0 < wz <= t -> (isri = false -> wz = t) -> (isri = true -> wz < t) ->
+        rr_out (let '(a, w2) := sel_envc e (now + c) (Some wz) in
+                if negb (sa_ready a) && negb isri
+                then mk_rres RTimeout w2 [] (c + sa_el a)
+                       [{| w_write := false; w_req := Some wz; w_ready := sa_ready a; w_el := sa_el a |}] 1
+                else rr_add (c + sa_el a)
+                       [{| w_write := false; w_req := Some wz; w_ready := sa_ready a; w_el := sa_el a |}]
+                       (retry_w (cb_envc e) (sel_envc e) f ri (recompute (Some t) (sa_el a)) w2)) <> RFuel ->
+        envc_spec e (Some t) now
+               (let '(a, w2) := sel_envc e (now + c) (Some wz) in
+                if negb (sa_ready a) && negb isri
+                then mk_rres RTimeout w2 [] (c + sa_el a)
+                       [{| w_write := false; w_req := Some wz; w_ready := sa_ready a; w_el := sa_el a |}] 1
+                else rr_add (c + sa_el a)
+                       [{| w_write := false; w_req := Some wz; w_ready := sa_ready a; w_el := sa_el a |}]
+                       (retry_w (cb_envc e) (sel_envc e) f ri (recompute (Some t) (sa_el a)) w2))).
+      { intros wz isri Hwz Hnri Hisri.
+        destruct (Z_le_gt_dec tau (now + c)) as [L|G].
+        - (* the fd became ready while the callback was running: select() returns at once *)
+          rewrite !(sel_envc_ready_now e (now + c) (Some wz) L). simpl. intro Hfuel.
+          apply (Hstep {| sa_ready := true; sa_el := 0 |} (now + c) (Some (Z.max 0 (t - 0))) (Some wz)); simpl;
+            try lia; try assumption; try (split; lia).
+        - rewrite !(sel_envc_later e (now + c) (Some wz) ltac:(lia)). rewrite !sel_env_some.
+          pose proof (next_event_bounds (now + c) (ec_env e) ltac:(fold tau; lia)) as [Hev1 Hev2]. fold tau in Hev2.
+          set (ev := next_event (now + c) (ec_env e)) in *.
+          destruct (ev <=? now + c + wz) eqn:Eev; simpl.
+          + apply Z.leb_le in Eev. intro Hfuel.
+            apply (Hstep {| sa_ready := true; sa_el := ev - (now + c) |} ev (Some (Z.max 0 (t - (ev - (now + c))))) (Some wz));
+              simpl; try lia; try assumption; try (split; lia).
+          + apply Z.leb_gt in Eev. destruct isri; simpl.
+            * intro Hfuel. specialize (Hisri eq_refl).
+              apply (Hstep {| sa_ready := false; sa_el := wz |} (now + c + wz) (Some (Z.max 0 (t - wz))) (Some wz));
+                simpl; try lia; try assumption; try (split; lia).
+            * intros _. specialize (Hnri eq_refl). subst wz. unfold envc_spec. simpl. fold tau. split; lia. }
+      destruct ri as [x|]; simpl in *.
+      * destruct (t <=? x) eqn:Ex; simpl.
+        -- apply (Hgen t false); [lia | reflexivity | discriminate].
+        -- apply Z.leb_gt in Ex. apply (Hgen x true); [lia | discriminate | intros; lia].
+      * apply (Hgen t false); [lia | reflexivity | discriminate].
+    + (* infinite timeout *)
+      destruct (Z_le_gt_dec tau (now + c)) as [L|G].
+      * destruct ri as [x|]; simpl in *; rewrite !(sel_envc_ready_now e (now + c) _ L); simpl; intro Hfuel.
+        -- apply (Hstep {| sa_ready := true; sa_el := 0 |} (now + c) None (Some x)); simpl; try lia; try assumption; try exact I.
+        -- apply (Hstep {| sa_ready := true; sa_el := 0 |} (now + c) None None); simpl; try lia; try assumption; try exact I.
+      * pose proof (next_event_bounds (now + c) (ec_env e) ltac:(fold tau; lia)) as [Hev1 Hev2]. fold tau in Hev2.
+        destruct ri as [x|]; simpl in *; rewrite !(sel_envc_later e (now + c) _ ltac:(lia)).
+        -- rewrite !sel_env_some. set (ev := next_event (now + c) (ec_env e)) in *.
+           destruct (ev <=? now + c + x) eqn:Eev; simpl; intro Hfuel.
+           ++ apply (Hstep {| sa_ready := true; sa_el := ev - (now + c) |} ev None (Some x)); simpl; try lia; try assumption; try exact I.
+           ++ apply Z.leb_gt in Eev.
+              apply (Hstep {| sa_ready := false; sa_el := x |} (now + c + x) None (Some x)); simpl; try lia; try assumption; try exact I.
+        -- rewrite !sel_env_none. simpl. intro Hfuel.
+           set (ev := next_event (now + c) (ec_env e)) in *.
+           apply (Hstep {| sa_ready := true; sa_el := ev - (now + c) |} ev None None); simpl; try lia; try assumption; try exact I.
+Qed.
+
+Definition is_ok (r : rres Z unit) : Prop := exists v T', rr_out r = ROk v T'.
+
+Lemma retry_envc_facts : forall e fuel ri T now,
+  0 <= ec_cost e -> ri_ok ri -> (match T with Some t => 0 <= t | None => True end) ->
+  let r := retry_w (cb_envc e) (sel_envc e) fuel ri T now in
+  rr_out r <> RFuel ->
+  (* success / TimeoutError are the only outcomes, with these bounds *)
+  ((is_ok r /\ Z.max 0 (e_tau (ec_env e) - now) <= rr_dt r
+    /\ 0 <= sum_wait_el (rr_waits r) <= Z.max 0 (e_tau (ec_env e) - now))
+   \/ (rr_out r = RTimeout /\ exists t, T = Some t /\ now + t < e_tau (ec_env e) /\ sum_wait_el (rr_waits r) = t))
+  (* ready within T (costs not counted): success whatever the retry interval *)
+  /\ (match T with Some t => e_tau (ec_env e) <= now + t | None => True end -> is_ok r).
+Proof.
+  intros e fuel ri T now Hc Hri HT r Hf.
+  pose proof (retry_w_envc_spec e fuel ri T now Hc Hri HT Hf) as S. fold r in S. unfold envc_spec in S.
+  destruct (rr_out r) as [v T'| |code|] eqn:E; try contradiction.
+  - split; [left; split; [exists v, T'; first [exact E | reflexivity] | exact S] | intros _; exists v, T'; first [exact E | reflexivity]].
+  - destruct T as [t|]; [|contradiction]. destruct S as [A B].
+    split; [right; split; [first [exact E | reflexivity] | exists t; repeat split; assumption] | intro H; lia].
+Qed.
+
+(* two runs with different retry intervals: where both succeed, the elapsed times differ by at most the call costs
+   (rr_dt - time in select) of the slower one *)
+Lemma retry_envc_elapsed_gap : forall e T now ri1 ri2 fuel1 fuel2,
+  0 <= ec_cost e -> ri_ok ri1 -> ri_ok ri2 -> (match T with Some t => 0 <= t | None => True end) ->
+  let r1 := retry_w (cb_envc e) (sel_envc e) fuel1 ri1 T now in
+  let r2 := retry_w (cb_envc e) (sel_envc e) fuel2 ri2 T now in
+  is_ok r1 -> is_ok r2 ->
+  rr_dt r1 - rr_dt r2 <= rr_dt r1 - sum_wait_el (rr_waits r1).
+Proof.
+  intros e T now ri1 ri2 fuel1 fuel2 Hc H1 H2 HT r1 r2 (v1 & T1 & O1) (v2 & T2 & O2).
+  assert (F1 : rr_out r1 <> RFuel) by (rewrite O1; discriminate).
+  assert (F2 : rr_out r2 <> RFuel) by (rewrite O2; discriminate).
+  pose proof (retry_w_envc_spec e fuel1 ri1 T now Hc H1 HT F1) as S1.
+  pose proof (retry_w_envc_spec e fuel2 ri2 T now Hc H2 HT F2) as S2.
+  fold r1 in S1. fold r2 in S2. unfold envc_spec in *. rewrite O1 in S1. rewrite O2 in S2. lia.
+Qed.
